@@ -423,6 +423,19 @@ def gen_C07(r):
         if r.random() < 0.3 and scn["disable_git"] is False and ops[0]["op"] == "git":
             ops.append({"op": "git", "action": "commit", "name": "c%d" % (k + 1)})
     scn["history"] = ops
+    pkgs_used = sorted({S.split_tid(t)[0] for t, d in scn["tasks"].items() if d["kind"] in ("exp", "cmd") and not d.get("xg")})
+    if r.random() < 0.1 and len(pkgs_used) >= 2 and not scn.get("dup_dep") and not scn.get("include"):
+        # one COND file wraps run_experiment / run_command (its own tasks get default options and are
+        # parallelizable); what a COND file defines or rebinds stays in that file
+        wp = r.choice(pkgs_used)
+        scn["wrap_pkg"] = wp
+        scn["wrap_opts"] = True
+        for t, d in scn["tasks"].items():
+            if S.split_tid(t)[0] == wp and d["kind"] in ("exp", "cmd") and not d.get("xg"):
+                d["par"] = True
+                if not d.get("options"):
+                    d["options"] = {"wrapped": 1}
+                    d["wrapdef"] = True
     return scn
 
 
@@ -795,6 +808,12 @@ def gen_C11(r):
         ops.append({"op": "where", "target": r.choice(exps) if exps else r.choice(list(tasks)), "flags": {}, "cwd": ""})
     if r.random() < 0.3:
         ops.append(run_op(0.0))
+    if out and r.random() < 0.12:
+        # an unrecorded left-over directory (a failed run of the same second) sits where a version of the
+        # archive belongs: whatever restore does, it must not hand back a mixture of the two trees
+        i = max(j for j, o in enumerate(ops) if o["op"] == "restore")
+        ops.insert(i, {"op": "plant", "items": [{"kind": "archive_version_dir", "archive": out, "idx": r.randrange(4),
+                                                 "empty": r.random() < 0.3}]})
     scn["history"] = ops
     return scn
 
@@ -934,12 +953,14 @@ GEN["C18"] = gen_C18
 def gen_C17(r):
     pk = _pkgs(r)
     tasks = S.gen_graph(r, r.randint(2, 6), KW_ALL, pk, p_par=0.4)
-    scn = {"epoch": 1_700_000_000 + r.randrange(10**6), "tasks": tasks, "pkgs": pk + ["nocond", "nocond/deeper"],
+    # "cond" / "co": directories whose path is a string prefix (not a path prefix) of <root>/cond-out
+    scn = {"epoch": 1_700_000_000 + r.randrange(10**6), "tasks": tasks,
+           "pkgs": pk + ["nocond", "nocond/deeper", "cond", "co"],
            "git": {"mode": "none"}, "disable_git": r.random() < 0.6, "history": [],
            "knobs": S.gen_knobs(r, mon=False, p_async_choices=(0.0,))}
     from . import model as M_
 
-    cwd_pool = [p for p in pk if p] + ["nocond", "nocond/deeper", "cond-out", "cond-out"] + \
+    cwd_pool = [p for p in pk if p] + ["nocond", "nocond/deeper", "cond-out", "cond-out", "cond", "co"] + \
         ["cond-out/" + M_.out_dir_rel(t) for t, d in tasks.items() if d["kind"] in ("cmd", "combine")]
     for t in tasks:
         p = S.split_tid(t)[0]
@@ -1099,12 +1120,45 @@ def _c05_template_null_foreign(r, tasks, exps):
     return ops
 
 
+def _c05_template_reinserted(r, tasks, exps):
+    """rows that enter the index out of chronological order: older versions come back through
+    `cond restore` after newer ones were recorded (insertion order != age)"""
+    ops = []
+    start = r.choice(["nogit", "nogit", "disabled", "empty", "repo"])
+    if start == "disabled":
+        ops.append({"op": "config", "disable_git": True})
+    if start in ("empty", "repo") or (start == "disabled" and r.random() < 0.5):
+        ops.append({"op": "git", "action": "init"})
+        if start != "empty":
+            ops.append({"op": "git", "action": "commit", "name": "c0"})
+
+    def run(again, gap):
+        return {"op": "run", "target": r.choice(exps) if exps and r.random() < 0.4 else S.pick_target(r, tasks, 0.8),
+                "flags": {"again": True} if again else {}, "cwd": "", "gap": gap, "scripts": {}}
+
+    ops.append(run(False, 0.0))
+    if r.random() < 0.3:
+        ops.append(run(True, r.choice([1.0, 4.0])))
+    ops.append({"op": "archive", "target": r.choice([None, None] + exps), "out": "A0",
+                "flags": {"latest": r.random() < 0.3}, "cwd": ""})
+    ops.append({"op": "clean", "cwd": ""})
+    ops.append(run(False, r.choice([1.0, 2.0, 60.0])))
+    if start == "repo" and r.random() < 0.4:
+        ops.append({"op": "git", "action": "commit", "name": "c1"})
+    if r.random() < 0.3:
+        ops.append(run(True, r.choice([1.0, 3.0])))
+    ops.append({"op": "restore", "archive": "A0", "cwd": ""})
+    ops += _c05_ops_where_run(r, tasks, exps, r.randint(1, 3))
+    ops.append(run(False, 1.0))
+    return ops
+
+
 _gen_C05_random = gen_C05
 
 
 def gen_C05(r):  # noqa: F811
     c = r.random()
-    if c < 0.5:
+    if c < 0.45:
         return _gen_C05_random(r)
     pk = _pkgs(r)
     tasks = S.gen_graph(r, r.randint(2, 4), {"exp": 8, "cmd": 1, "group": 1, "combine": 1}, pk, p_par=0.3)
@@ -1112,7 +1166,12 @@ def gen_C05(r):  # noqa: F811
     scn = {"epoch": 1_700_000_000 + r.randrange(10**6), "tasks": tasks, "pkgs": pk,
            "git": {"mode": "none"}, "disable_git": False, "history": [],
            "knobs": S.gen_knobs(r, mon=False, p_async_choices=(0.0,))}
-    scn["history"] = _c05_template_merge(r, tasks, exps) if c < 0.8 else _c05_template_null_foreign(r, tasks, exps)
+    if c < 0.74:
+        scn["history"] = _c05_template_merge(r, tasks, exps)
+    elif c < 0.89:
+        scn["history"] = _c05_template_null_foreign(r, tasks, exps)
+    else:
+        scn["history"] = _c05_template_reinserted(r, tasks, exps)
     return scn
 
 
@@ -1194,7 +1253,7 @@ GEN["C09"], GEN["C04"], GEN["C01"] = gen_C09, gen_C04, gen_C01
 
 _MIX = {
     "C01": ["C03", "C04", "C09", "C02", "C18", "C07"],
-    "C02": ["C01", "C07", "C18", "C08", "C11", "C13"],
+    "C02": ["C01", "C07", "C18", "C08", "C11", "C13", "C05"],
     "C03": ["C01", "C04", "C09", "C18"],
     "C04": ["C01", "C03", "C09"],
     "C07": ["C02", "C18", "C08", "C11", "C05"],
